@@ -109,9 +109,16 @@ def check(prop, tier, seed):
             rng.shuffle(uniq)
             uniq = uniq[:400]
         nsched += len(uniq)
+        nknown = len(case["alive"]) + len(case["free"])
         for s in uniq:
-            scripts.append({"tid": tid, "mode": "sched", "alive_ids": case["alive"], "free_seq": case["free"],
-                            "progs": case["progs"], "schedule": list(s)})
+            sc = {"tid": tid, "mode": "sched", "alive_ids": case["alive"], "free_seq": case["free"],
+                  "progs": case["progs"], "schedule": list(s)}
+            if tid % 3 == 0:
+                # a second frame on the same world: delete some known entities, create again (recycling after a merge)
+                sc["frames"] = [{"progs": [[["delete", rng.randint(1, nknown)], ["create"], ["create"]],
+                                           [["create"], ["delete", rng.randint(1, nknown)], ["create"]]],
+                                 "schedule": [rng.randint(1, 2) for _ in range(40)]}]
+            scripts.append(sc)
             tid += 1
         # random complete schedules for the same programs
         for _ in range(40 if tier == "quick" else 400):
@@ -152,7 +159,30 @@ def check(prop, tier, seed):
                     tag += 1
                     prog.append(["lazy", t * 100000 + tag])
             progs.append(prog)
-        scripts.append({"tid": tid, "mode": "free", "alive_ids": alive, "free_seq": free, "progs": progs, "schedule": []})
+        sc = {"tid": tid, "mode": "free", "alive_ids": alive, "free_seq": free, "progs": progs, "schedule": []}
+        frames = []
+        for _ in range(rng.randint(0, 2)):
+            fp = []
+            for t in range(rng.choice([2, 3, 4, 8])):
+                prog = []
+                for _ in range(rng.randint(3, 40)):
+                    x = rng.random()
+                    if x < 0.5:
+                        prog.append(["create"])
+                    elif x < 0.62:
+                        prog.append(["delown"])
+                    elif x < 0.85:
+                        prog.append(["delete", rng.randint(1, nalive + nfree + 6)])
+                    elif x < 0.92:
+                        prog.append(["join"])
+                    else:
+                        tag += 1
+                        prog.append(["lazy", 900000 + tag])
+                fp.append(prog)
+            frames.append({"progs": fp, "schedule": []})
+        if frames:
+            sc["frames"] = frames
+        scripts.append(sc)
         tid += 1
     workdir = os.path.join(C.OUT, "work", "%s_%d" % (key, os.getpid()))
     C.sh(["rm", "-rf", workdir])
